@@ -16,8 +16,8 @@ LEVEL = 'model_checking'
 TECHNIQUE = ('deviation-bounded exhaustive exploration (iterative bounding 0,1,2) of consumer actions at every yield of the real '
              'walk()/search() generators, each execution run to completion under a horizon and judged by invariants + a '
              'reference continuation order + C01 on the final tree')
-LEVEL_TEXT = ('for 20 tree shapes x 19 walk settings (walks from the root and from inner nodes) every script with <= 1 consumer action (33-action menu at every yield) and, on a '
-              'subset, <= 2 actions is executed on the real generator; nothing is sampled; each execution is checked for '
+LEVEL_TEXT = ('for 23 tree shapes x 19 walk settings (walks from the root and from inner nodes) every script with <= 1 consumer action (33-action menu at every yield) and, on a '
+              'subset, <= 2 actions, plus the script that rewrites every name it meets, is executed on the real generator; nothing is sampled; each execution is checked for '
               'exceptions, termination, liveness/attachment of yielded nodes, duplicates, the documented continuation and C01')
 LEVEL_NOTE = ('trusted: CPython ast for the final tree; consumer actions that themselves raise are "not enabled" and do not count; '
               'cut() during a walk is excluded by the documentation')
@@ -25,7 +25,7 @@ RULE = ('dev: case = (tree, walk setting, script of (step, action)); non-trivial
         'changed the tree or the walk; states = distinct (tree, setting, script) executions; traces = executions checked against the '
         'continuation reference')
 ASSUMPTIONS = ['yielded nodes are kept referenced (no id reuse)', 'horizon 6 x (initial + inserted nodes) yields']
-BOUNDS = {'quick': '19 trees x 19 settings x all 1-action scripts (29 actions); 2-action scripts on 4 trees x 4 settings (reduced 12-action menu); '
+BOUNDS = {'quick': '23 trees x 19 settings x all 1-action scripts (33 actions) + the rewrite-every-name script; 2-action scripts on 4 trees x 4 settings (reduced 12-action menu); '
                    'send() protocol of walk() (8 parameter settings) and search() (4 patterns x nested x back): every send sequence of a 6-sequence menu at every yield',
           'thorough': '2-action scripts on all trees x 6 settings; 3-action scripts on 2 trees'}
 
